@@ -412,13 +412,6 @@ instance : (s : St) → (ops : List Op) → Decidable (AllPre s ops)
     unfold AllPre
     have := instDecidableAllPre (step s op) rest
     infer_instance
-instance : (s : St) → (ops : List COp) → Decidable (NoPadOvershoot s ops)
-  | _, [] => .isTrue trivial
-  | s, op :: rest => by
-    unfold NoPadOvershoot
-    have := instDecidableNoPadOvershoot (cstep s op) rest
-    infer_instance
-
 example : AllPre St.server [.recv 1250, .send 1200, .send 1200, .send 1200, .send 150] ∧
     NoValidate [.recv 1250, .send 1200, .send 1200, .send 1200, .send 150] := by decide
 /-- The pre-repair witness is no longer a behaviour of the code: its last send (150 bytes of packets
